@@ -12,12 +12,24 @@ from harness import gallina as G
 from harness.framework import SCRATCH
 
 ID = "C44"
-COQ_DIRS = ["C44"]
+COQ_DIRS = ["C44", "Gen"]
 PROPERTY_FILE = "C44/Property.v"
 RUN_IMPORTS = "From TV Require Import C44.Model C44.Run."
 RUN_FN = "run_case"
 CHECK_FN = "check_case"
 INPUT_TYPE = "input"
+
+def pre_build():
+    """regenerate Gen/C44_src.v (bool word tables, timedelta unit table, datetime formats, regex patterns and the
+    source text of the modelled methods) from the working tree; fails closed"""
+    import importlib
+    import sys
+    from harness.framework import REPO, COQ
+    sys.path.insert(0, os.path.join(os.path.dirname(COQ), "translators"))
+    import c44_src
+    importlib.reload(c44_src)
+    c44_src.emit(REPO, os.path.join(COQ, "Gen", "C44_src.v"))
+
 
 TYPES = {"str": str, "int": int, "float": float, "bool": bool,
          "datetime": datetime.datetime, "timedelta": datetime.timedelta}
@@ -158,7 +170,7 @@ def _tag(e):
     from tornado.options import Error
     if type(e) is Error:
         return G.Tag("Error")
-    for cls, name in ((OverflowError, "OverflowError"), (ValueError, "ValueError"), (TypeError, "TypeError")):
+    for cls, name in ((OverflowError, "OverflowError"), (ValueError, "ValueError"), (TypeError, "TypeError"), (AttributeError, "AttributeError")):
         if isinstance(e, cls):
             return G.Tag(name)
     if type(e) is Exception:
@@ -184,6 +196,13 @@ def run_impl(case):
                 with contextlib.redirect_stderr(io.StringIO()):
                     rem = o.parse_command_line(list(s["cmd"]))
                 outs.append(list(rem))
+            elif "set" in s:
+                for i, (name, v) in enumerate(s["set"]):
+                    if i % 2:
+                        o[name] = dec(v)          # __setitem__
+                    else:
+                        setattr(o, name, dec(v))  # __setattr__
+                outs.append([])
             else:
                 fd, path = tempfile.mkstemp(prefix="c44_", suffix=".conf", dir=SCRATCH)
                 try:
@@ -212,12 +231,55 @@ def coq_input(case):
         if "cmd" in s:
             srcs.append("SCmd %s" % G.glist([G.gbytes(a) for a in s["cmd"]], "text"))
         else:
-            srcs.append("SCfg %s" % G.glist(["(%s, %s)" % (G.gbytes(n), gval(v)) for n, v in s["cfg"]], "(text * value)"))
+            key = "cfg" if "cfg" in s else "set"
+            srcs.append("%s %s" % ("SCfg" if key == "cfg" else "SSet", G.glist(["(%s, %s)" % (G.gbytes(n), gval(v)) for n, v in s[key]], "(text * value)")))
     return "(%s, %s)" % (G.glist(defs, "optdef"), G.glist(srcs, "source"))
 
 
+def _eff_type(d):
+    if d["ty"] is not None:
+        return TYPES[d["ty"]]
+    v = dec(d["default"])
+    return type(v) if (not d["multiple"] and v is not None) else str
+
+
+def _well_typed(d, v):
+    t = _eff_type(d)
+    if d["multiple"]:
+        return isinstance(v, list) and all(x is None or isinstance(x, t) for x in v)
+    return v is None or isinstance(v, t)
+
+
+def accepted_values_ok(case, o):
+    """values of the wrong type are rejected, element-wise: a config file / run of attribute assignments that
+    completed without raising bound every defined option only to well-typed objects (config strings are parsed)"""
+    if not (isinstance(o, list) and len(o) == 2 and isinstance(o[0], list)):
+        return True
+    defs = {}
+    for d in case["defs"]:
+        defs.setdefault(norm(d["name"]), d)
+    for s, out in zip(case["srcs"], o[0]):
+        if isinstance(out, G.Tag) or "cmd" in s:
+            continue
+        cfg = "cfg" in s
+        for name, jv in s["cfg" if cfg else "set"]:
+            d = defs.get(norm(name))
+            if d is None:
+                if not cfg:
+                    return False        # assignment to an undefined option must raise
+                continue
+            v = dec(jv)
+            if cfg and isinstance(v, str):
+                continue
+            if not _well_typed(d, v):
+                return False
+    return True
+
+
 def py_check(case, o):
-    """independent oracle: the generator knows which values it printed"""
+    """independent oracle: (a) accepted objects are well-typed element-wise; (b) the generator knows which values it printed"""
+    if not accepted_values_ok(case, o):
+        return False
     exp = case.get("expect")
     if exp is None:
         return True
@@ -528,6 +590,42 @@ def gen_default(rng, ty, multiple):
     return one()
 
 
+SAMPLE = {"str": [{"s": "a"}, {"s": ""}, {"s": "8002"}], "int": [{"i": 8001}, {"i": 0}, {"i": -3}], "float": [{"f": [3, -1]}, {"f": [0, 0]}, {"f": "inf"}],
+          "bool": [{"b": True}, {"b": False}], "datetime": [{"dt": [2020, 1, 2, 3, 4, 5]}], "timedelta": [{"td": 1500000}, {"td": 0}]}
+
+
+def mixed_list(rng, ty):
+    good = SAMPLE[ty] + [None]
+    bad = [v for t, vs in SAMPLE.items() if t != ty for v in vs] + [{"l": []}, {"l": [SAMPLE[ty][0]]}]
+    if ty == "int":   # bool is an int
+        bad = [v for v in bad if "b" not in v]
+    n = rng.choice([2, 2, 3, 4])
+    items = [rng.choice(good if rng.random() < 0.6 else bad) for _ in range(n)]
+    if rng.random() < 0.7:    # make sure it really mixes
+        items[rng.randrange(n)] = rng.choice(bad)
+        j = rng.randrange(n)
+        items[j] = rng.choice(good) if all(x in bad for x in items) else items[j]
+    return {"l": items}
+
+
+def typed_cases():
+    """every type x {config file, attribute assignment}: well-typed, mixed and wrong-typed objects"""
+    out = []
+    for ty in TY_NAMES:
+        g = SAMPLE[ty][0]
+        other = "int" if ty != "int" else "str"
+        w = SAMPLE[other][0]
+        lists = [[g, w], [w, g], [None, w], [g, None, w], [w, w], [g, g], [None], [], [g, w, g], [w, None]]
+        for path in ("cfg", "set"):
+            for l in lists:
+                out.append({"defs": [{"name": "a", "ty": ty, "multiple": True, "default": None}, {"name": "b", "ty": "int", "multiple": False, "default": {"i": 1}}],
+                            "srcs": [{path: [["a", {"l": l}]]}]})
+            for v in (g, w, None, {"l": [g]}):
+                out.append({"defs": [{"name": "a", "ty": ty, "multiple": False, "default": None}], "srcs": [{path: [["a", v]]}]})
+        out.append({"defs": [{"name": "a", "ty": ty, "multiple": False, "default": None}], "srcs": [{"set": [["zz", g]]}]})
+    return out
+
+
 def gen_case(rng, focus=None):
     ndefs = rng.choice([1, 1, 2, 3, 4])
     defs, used = [], set()
@@ -606,12 +704,21 @@ def gen_case(rng, focus=None):
                 outs.append(rem)
         else:
             bs = []
+            via_set = rng.random() < 0.4
             for d in rng.sample(defs, rng.randrange(0, len(defs) + 1)):
                 ty, mult = d["_ty"], d["multiple"]
                 nm = d["name"].replace("-", "_")
+                if via_set and rng.random() < 0.5:
+                    nm = d["name"]
                 if any(b[0] == nm for b in bs):
                     continue
                 r = rng.random()
+                if via_set and r < 0.45:
+                    r = rng.choice([0.6, 0.9])
+                if r >= 0.8 and rng.random() < 0.6:    # list mixing well-typed / None / wrong-typed elements
+                    bs.append([nm, mixed_list(rng, ty)])
+                    known = False
+                    continue
                 if r < 0.45:
                     t, e = gen_text(rng, ty, mult)
                     bs.append([nm, {"s": t}])
@@ -630,9 +737,11 @@ def gen_case(rng, focus=None):
                     v = rng.choice([{"i": 3}, {"b": True}, {"f": [5, -2]}, {"s": "x"}, {"l": [{"i": 1}, None]}, {"l": [{"s": "q"}]}, {"td": 5}, {"dt": [2020, 1, 1, 0, 0, 0]}, {"l": []}, None, {"l": [{"b": False}]}])
                     bs.append([nm, v])
                     known = False
-            if rng.random() < 0.3:
+            if rng.random() < (0.1 if via_set else 0.3):
                 bs.insert(rng.randrange(len(bs) + 1), [rng.choice(["zz", "unrelated", "q_q"]), rng.choice([{"i": 1}, {"s": "s"}, None])])
-            srcs.append({"cfg": bs})
+                if via_set:
+                    known = False
+            srcs.append({"set" if via_set else "cfg": bs})
             if not failed:
                 outs.append([])
         if failed:
@@ -697,6 +806,7 @@ def gen_cases(rng, tier):
             out.append(single("datetime", "2024-01-02" + ch + "03:04"))
     for i in range(n):
         out.append(gen_case(rng, focus=TY_NAMES[i % 6] if i % 2 == 0 else None))
+    out += typed_cases()
     # every bool spelling in every capitalisation
     for w, b in BOOL_WORDS.items():
         for mask in range(2 ** len(w)):
@@ -738,8 +848,16 @@ def _outcome(o):
         return "?"
 
 
+def _skey(s):
+    return "cmd" if "cmd" in s else "cfg" if "cfg" in s else "set"
+
+
+def _items(s):
+    return s[_skey(s)]
+
+
 def nontrivial(case, o):
-    if not case["srcs"] or all(len(s.get("cmd", s.get("cfg"))) <= (1 if "cmd" in s else 0) for s in case["srcs"]):
+    if not case["srcs"] or all(len(_items(s)) <= (1 if "cmd" in s else 0) for s in case["srcs"]):
         return None
     return json.dumps(case, sort_keys=True)
 
@@ -749,7 +867,9 @@ def classify(case, o):
     for d in case["defs"]:
         yield "type=" + str(d["ty"]) + ("*" if d["multiple"] else "")
     for s in case["srcs"]:
-        yield "source=" + ("cmd" if "cmd" in s else "cfg")
+        yield "source=" + _skey(s)
+        if "cmd" not in s and any(isinstance(v, dict) and "l" in v and len({json.dumps(x, sort_keys=True)[:4] for x in v["l"]}) > 1 for _, v in _items(s)):
+            yield "mixed-list-object"
     yield "expect=" + ("known" if case.get("expect") else "unknown")
 
 
@@ -765,10 +885,15 @@ def shrink(case):
     for i in range(len(case["defs"])):
         yield dict(base, defs=case["defs"][:i] + case["defs"][i + 1:])
     for i, s in enumerate(case["srcs"]):
-        key = "cmd" if "cmd" in s else "cfg"
+        key = _skey(s)
         items = s[key]
         for j in range(len(items)):
             yield dict(base, srcs=case["srcs"][:i] + [{key: items[:j] + items[j + 1:]}] + case["srcs"][i + 1:])
+        if key != "cmd":
+            for j, (n, v) in enumerate(items):
+                if isinstance(v, dict) and "l" in v and len(v["l"]) > 1:
+                    for q in range(len(v["l"])):
+                        yield dict(base, srcs=case["srcs"][:i] + [{key: items[:j] + [[n, {"l": v["l"][:q] + v["l"][q + 1:]}]] + items[j + 1:]}] + case["srcs"][i + 1:])
         if key == "cmd":
             for j, a in enumerate(items):
                 if len(a) > 4:
@@ -777,6 +902,8 @@ def shrink(case):
 
 
 TRUSTED_BASE = [
+    "translators/c44_src.py (strict ast reader of tornado/options.py: _parse_bool tables, _TIMEDELTA_ABBREV_DICT, _DATETIME_FORMATS -> regex items as CPython _strptime builds them, "
+    "regex pattern strings and the unparsed source of the twelve modelled methods; fails closed); Gen/C44_equiv.v proves them equal to the model's tables / the transcribed sources",
     "harness/props/c44.py run_impl: options are defined on a fresh OptionParser and read back with _Option.value(); the built-in `help` option is skipped",
     "config files are modelled as the ordered namespace of `name = literal` assignments (the exec of arbitrary Python is not modelled)",
     "CPython 3.12 int()/float()/re/_strptime/_datetime (C) are modelled for code points < 256; their behaviour is tied to the model by the correspondence only",
